@@ -608,7 +608,9 @@ impl Forest {
             }
             Unwrap(e) => kind(*e) == MKind::Elem && x.parent(*e).is_some(),
             CloneNode(_) | CloneWithPrefixes(_) => true,
-            AppendText(p, _) | AppendElement(p, _) | AppendComment(p, _) | AppendPi(p, _, _) => container(*p),
+            // whether the wrapper may refuse "--" is left open (Comment::set does refuse it)
+            AppendComment(p, s) => container(*p) && !s.contains("--"),
+            AppendText(p, _) | AppendElement(p, _) | AppendPi(p, _, _) => container(*p),
             AppendAttrNode(e, a) => kind(*e) == MKind::Elem && kind(*a) == MKind::Attr,
             AppendNsNode(e, a) => kind(*e) == MKind::Elem && kind(*a) == MKind::Ns,
             AnyAppend(e, a) => match kind(*a) {
@@ -1397,7 +1399,7 @@ impl OpGen {
             10 => Op::CloneWithPrefixes(a),
             11 => Op::AppendText(container, pick_text(rng)),
             12 => Op::AppendElement(container, pick_name(rng)),
-            13 => Op::AppendComment(container, "c".to_string()),
+            13 => Op::AppendComment(container, rng.pick(&["c", "c", "cc", "a--b", "--"]).to_string()),
             14 => Op::AppendPi(container, "pi".to_string(), if rng.bool() { Some("d".into()) } else { None }),
             15 | 16 | 17 => {
                 // attribute / namespace node arguments
